@@ -10,6 +10,7 @@
 (*  SpawnBegin(f, v=injected fault, r=scope closed 0|1|2) SpawnEnd(f,r=threw)*)
 (*  DetachBegin/DetachEnd (same, spawn_detached)                           *)
 (*  Alloc(v=allocator tag, r=block) Free(v=tag of the deallocating allocator, r=block) *)
+(*  OpCreated(f) OpDestroyed(f) (the spawned operation state, which lives inside the shared block)  *)
 (*  OpStart(f) OpStopSeen(f) OpCompleteBegin(f,ch,v,r=stop visible to the op) OpCompleteEnd(f) *)
 (*  FutConnectBegin/End(f) FutStartBegin/End(f) FutStopBegin/End(f)        *)
 (*  FutDropBegin/End(f) (future or its unstarted operation destroyed; move-assigned over) *)
@@ -18,15 +19,15 @@
 (***************************************************************************)
 EXTENDS Naturals, Sequences, FiniteSets, TLC, TraceIO
 F == {1, 2}
-VARIABLES l, sp, kind, closed, fault, nalloc, opStarted, opPh, opCh, opV,
+VARIABLES l, sp, kind, closed, fault, nalloc, opLife, opStarted, opPh, opCh, opV,
           conn, start, stop, drop, opEndBeforeAwait, stopBeforeOpEnd, done,
           live, joined, ended, term, child
-vars == <<l, sp, kind, closed, fault, nalloc, opStarted, opPh, opCh, opV, conn, start, stop, drop,
+vars == <<l, sp, kind, closed, fault, nalloc, opLife, opStarted, opPh, opCh, opV, conn, start, stop, drop,
           opEndBeforeAwait, stopBeforeOpEnd, done, live, joined, ended, term, child>>
-per == <<sp, kind, closed, fault, nalloc, opStarted, opPh, opCh, opV, conn, start, stop, drop,
+per == <<sp, kind, closed, fault, nalloc, opLife, opStarted, opPh, opCh, opV, conn, start, stop, drop,
          opEndBeforeAwait, stopBeforeOpEnd, done>>
 Fresh == /\ sp = [f \in F |-> "none"] /\ kind = [f \in F |-> "fut"] /\ closed = [f \in F |-> 0]
-         /\ fault = [f \in F |-> 0] /\ nalloc = [f \in F |-> 0] /\ opStarted = [f \in F |-> FALSE]
+         /\ fault = [f \in F |-> 0] /\ nalloc = [f \in F |-> 0] /\ opLife = [f \in F |-> "none"] /\ opStarted = [f \in F |-> FALSE]
          /\ opPh = [f \in F |-> "none"] /\ opCh = [f \in F |-> "none"] /\ opV = [f \in F |-> 0]
          /\ conn = [f \in F |-> "none"] /\ start = [f \in F |-> "none"] /\ stop = [f \in F |-> "none"]
          /\ drop = [f \in F |-> "none"] /\ opEndBeforeAwait = [f \in F |-> FALSE]
@@ -40,7 +41,7 @@ Up(fn, v) == [fn EXCEPT ![E.f] = v]
 Closed == ended \/ child \/ (\A f \in F : sp[f] = "none")
 Reset == /\ Is("Reset") /\ Closed
          /\ sp' = [f \in F |-> "none"] /\ kind' = [f \in F |-> "fut"] /\ closed' = [f \in F |-> 0]
-         /\ fault' = [f \in F |-> 0] /\ nalloc' = [f \in F |-> 0] /\ opStarted' = [f \in F |-> FALSE]
+         /\ fault' = [f \in F |-> 0] /\ nalloc' = [f \in F |-> 0] /\ opLife' = [f \in F |-> "none"] /\ opStarted' = [f \in F |-> FALSE]
          /\ opPh' = [f \in F |-> "none"] /\ opCh' = [f \in F |-> "none"] /\ opV' = [f \in F |-> 0]
          /\ conn' = [f \in F |-> "none"] /\ start' = [f \in F |-> "none"] /\ stop' = [f \in F |-> "none"]
          /\ drop' = [f \in F |-> "none"] /\ opEndBeforeAwait' = [f \in F |-> FALSE]
@@ -50,53 +51,59 @@ Keep(vs) == UNCHANGED vs
 SpawnBegin(k, e) ==
   /\ Is(e) /\ sp[E.f] = "none" /\ ~ended
   /\ sp' = Up(sp, "begun") /\ kind' = Up(kind, k) /\ closed' = Up(closed, E.r) /\ fault' = Up(fault, E.v)
-  /\ UNCHANGED <<nalloc, opStarted, opPh, opCh, opV, conn, start, stop, drop, opEndBeforeAwait, stopBeforeOpEnd, done, live, joined, ended, term, child>>
+  /\ UNCHANGED <<nalloc, opLife, opStarted, opPh, opCh, opV, conn, start, stop, drop, opEndBeforeAwait, stopBeforeOpEnd, done, live, joined, ended, term, child>>
 \* strong guarantee: an injected failure propagates and leaves nothing behind; without a failure nothing is thrown
 SpawnEnd(e) ==
   /\ Is(e) /\ sp[E.f] = "begun"
   /\ (E.r = 1) <=> (fault[E.f] # 0)
   /\ (E.r = 1) => (~opStarted[E.f] /\ ~\E b \in live : b[1] = E.f)
   /\ sp' = Up(sp, IF E.r = 1 THEN "threw" ELSE "ok")
-  /\ UNCHANGED <<kind, closed, fault, nalloc, opStarted, opPh, opCh, opV, conn, start, stop, drop, opEndBeforeAwait, stopBeforeOpEnd, done, live, joined, ended, term, child>>
+  /\ UNCHANGED <<kind, closed, fault, nalloc, opLife, opStarted, opPh, opCh, opV, conn, start, stop, drop, opEndBeforeAwait, stopBeforeOpEnd, done, live, joined, ended, term, child>>
 \* one shared block per spawn, allocated during the spawn call, from the allocator handed to it
 Alloc == /\ Is("Alloc") /\ E.v \in F /\ sp[E.v] = "begun" /\ nalloc[E.v] = 0 /\ <<E.v, E.r>> \notin live
          /\ live' = live \cup {<<E.v, E.r>>} /\ nalloc' = [nalloc EXCEPT ![E.v] = 1]
-         /\ UNCHANGED <<sp, kind, closed, fault, opStarted, opPh, opCh, opV, conn, start, stop, drop, opEndBeforeAwait, stopBeforeOpEnd, done, joined, ended, term, child>>
+         /\ UNCHANGED <<sp, kind, closed, fault, opLife, opStarted, opPh, opCh, opV, conn, start, stop, drop, opEndBeforeAwait, stopBeforeOpEnd, done, joined, ended, term, child>>
 \* freed at most once, through an allocator equal to the one it came from
+\* ... and only after the operation state that lives inside the block has been destroyed completely
 Free == /\ Is("Free") /\ <<E.v, E.r>> \in live
+        /\ E.v \in F => opLife[E.v] \in {"none", "dead"}
         /\ live' = live \ {<<E.v, E.r>>}
-        /\ UNCHANGED <<sp, kind, closed, fault, nalloc, opStarted, opPh, opCh, opV, conn, start, stop, drop, opEndBeforeAwait, stopBeforeOpEnd, done, joined, ended, term, child>>
+        /\ UNCHANGED <<sp, kind, closed, fault, nalloc, opLife, opStarted, opPh, opCh, opV, conn, start, stop, drop, opEndBeforeAwait, stopBeforeOpEnd, done, joined, ended, term, child>>
 \* the operation is started (inside the spawn call) only in an open scope and only if the spawn succeeds
 OpStart == /\ Is("OpStart") /\ sp[E.f] = "begun" /\ closed[E.f] = 0 /\ fault[E.f] = 0 /\ ~opStarted[E.f]
            /\ opStarted' = Up(opStarted, TRUE)
-           /\ UNCHANGED <<sp, kind, closed, fault, nalloc, opPh, opCh, opV, conn, start, stop, drop, opEndBeforeAwait, stopBeforeOpEnd, done, live, joined, ended, term, child>>
+           /\ UNCHANGED <<sp, kind, closed, fault, nalloc, opLife, opPh, opCh, opV, conn, start, stop, drop, opEndBeforeAwait, stopBeforeOpEnd, done, live, joined, ended, term, child>>
+OpCreated == /\ Is("OpCreated") /\ sp[E.f] = "begun" /\ opLife[E.f] = "none" /\ opLife' = Up(opLife, "alive")
+             /\ UNCHANGED <<sp, kind, closed, fault, nalloc, opStarted, opPh, opCh, opV, conn, start, stop, drop, opEndBeforeAwait, stopBeforeOpEnd, done, live, joined, ended, term, child>>
+OpDestroyed == /\ Is("OpDestroyed") /\ opLife[E.f] = "alive" /\ opLife' = Up(opLife, "dead")
+               /\ UNCHANGED <<sp, kind, closed, fault, nalloc, opStarted, opPh, opCh, opV, conn, start, stop, drop, opEndBeforeAwait, stopBeforeOpEnd, done, live, joined, ended, term, child>>
 OpStopSeen == /\ Is("OpStopSeen") /\ UNCHANGED <<per, live, joined, ended, term, child>>
 \* dropping the future, or cancelling the awaited future, before the operation completes => the operation sees stop
 OpCompleteBegin ==
   /\ Is("OpCompleteBegin") /\ opStarted[E.f] /\ opPh[E.f] = "none"
   /\ (kind[E.f] = "fut" /\ (drop[E.f] = "ended" \/ (stop[E.f] = "ended" /\ start[E.f] = "ended"))) => E.r = 1
   /\ opPh' = Up(opPh, "begun") /\ opCh' = Up(opCh, E.ch) /\ opV' = Up(opV, E.v)
-  /\ UNCHANGED <<sp, kind, closed, fault, nalloc, opStarted, conn, start, stop, drop, opEndBeforeAwait, stopBeforeOpEnd, done, live, joined, ended, term, child>>
+  /\ UNCHANGED <<sp, kind, closed, fault, nalloc, opLife, opStarted, conn, start, stop, drop, opEndBeforeAwait, stopBeforeOpEnd, done, live, joined, ended, term, child>>
 OpCompleteEnd == /\ Is("OpCompleteEnd") /\ opPh[E.f] = "begun" /\ opPh' = Up(opPh, "ended")
-                 /\ UNCHANGED <<sp, kind, closed, fault, nalloc, opStarted, opCh, opV, conn, start, stop, drop, opEndBeforeAwait, stopBeforeOpEnd, done, live, joined, ended, term, child>>
+                 /\ UNCHANGED <<sp, kind, closed, fault, nalloc, opLife, opStarted, opCh, opV, conn, start, stop, drop, opEndBeforeAwait, stopBeforeOpEnd, done, live, joined, ended, term, child>>
 FutConnectBegin == /\ Is("FutConnectBegin") /\ sp[E.f] = "ok" /\ kind[E.f] = "fut" /\ conn[E.f] = "none" /\ drop[E.f] = "none"
                    /\ conn' = Up(conn, "begun") /\ opEndBeforeAwait' = Up(opEndBeforeAwait, opPh[E.f] = "ended")
-                   /\ UNCHANGED <<sp, kind, closed, fault, nalloc, opStarted, opPh, opCh, opV, start, stop, drop, stopBeforeOpEnd, done, live, joined, ended, term, child>>
+                   /\ UNCHANGED <<sp, kind, closed, fault, nalloc, opLife, opStarted, opPh, opCh, opV, start, stop, drop, stopBeforeOpEnd, done, live, joined, ended, term, child>>
 FutConnectEnd == /\ Is("FutConnectEnd") /\ conn[E.f] = "begun" /\ conn' = Up(conn, "ended")
-                 /\ UNCHANGED <<sp, kind, closed, fault, nalloc, opStarted, opPh, opCh, opV, start, stop, drop, opEndBeforeAwait, stopBeforeOpEnd, done, live, joined, ended, term, child>>
+                 /\ UNCHANGED <<sp, kind, closed, fault, nalloc, opLife, opStarted, opPh, opCh, opV, start, stop, drop, opEndBeforeAwait, stopBeforeOpEnd, done, live, joined, ended, term, child>>
 FutStartBegin == /\ Is("FutStartBegin") /\ conn[E.f] = "ended" /\ start[E.f] = "none" /\ drop[E.f] = "none" /\ start' = Up(start, "begun")
-                 /\ UNCHANGED <<sp, kind, closed, fault, nalloc, opStarted, opPh, opCh, opV, conn, stop, drop, opEndBeforeAwait, stopBeforeOpEnd, done, live, joined, ended, term, child>>
+                 /\ UNCHANGED <<sp, kind, closed, fault, nalloc, opLife, opStarted, opPh, opCh, opV, conn, stop, drop, opEndBeforeAwait, stopBeforeOpEnd, done, live, joined, ended, term, child>>
 FutStartEnd == /\ Is("FutStartEnd") /\ start[E.f] = "begun" /\ start' = Up(start, "ended")
-               /\ UNCHANGED <<sp, kind, closed, fault, nalloc, opStarted, opPh, opCh, opV, conn, stop, drop, opEndBeforeAwait, stopBeforeOpEnd, done, live, joined, ended, term, child>>
+               /\ UNCHANGED <<sp, kind, closed, fault, nalloc, opLife, opStarted, opPh, opCh, opV, conn, stop, drop, opEndBeforeAwait, stopBeforeOpEnd, done, live, joined, ended, term, child>>
 FutStopBegin == /\ Is("FutStopBegin") /\ stop[E.f] = "none" /\ stop' = Up(stop, "begun")
                 /\ stopBeforeOpEnd' = Up(stopBeforeOpEnd, opPh[E.f] # "ended")
-                /\ UNCHANGED <<sp, kind, closed, fault, nalloc, opStarted, opPh, opCh, opV, conn, start, drop, opEndBeforeAwait, done, live, joined, ended, term, child>>
+                /\ UNCHANGED <<sp, kind, closed, fault, nalloc, opLife, opStarted, opPh, opCh, opV, conn, start, drop, opEndBeforeAwait, done, live, joined, ended, term, child>>
 FutStopEnd == /\ Is("FutStopEnd") /\ stop[E.f] = "begun" /\ stop' = Up(stop, "ended")
-              /\ UNCHANGED <<sp, kind, closed, fault, nalloc, opStarted, opPh, opCh, opV, conn, start, drop, opEndBeforeAwait, stopBeforeOpEnd, done, live, joined, ended, term, child>>
+              /\ UNCHANGED <<sp, kind, closed, fault, nalloc, opLife, opStarted, opPh, opCh, opV, conn, start, drop, opEndBeforeAwait, stopBeforeOpEnd, done, live, joined, ended, term, child>>
 FutDropBegin == /\ Is("FutDropBegin") /\ sp[E.f] = "ok" /\ drop[E.f] = "none" /\ start[E.f] = "none" /\ drop' = Up(drop, "begun")
-                /\ UNCHANGED <<sp, kind, closed, fault, nalloc, opStarted, opPh, opCh, opV, conn, start, stop, opEndBeforeAwait, stopBeforeOpEnd, done, live, joined, ended, term, child>>
+                /\ UNCHANGED <<sp, kind, closed, fault, nalloc, opLife, opStarted, opPh, opCh, opV, conn, start, stop, opEndBeforeAwait, stopBeforeOpEnd, done, live, joined, ended, term, child>>
 FutDropEnd == /\ Is("FutDropEnd") /\ drop[E.f] = "begun" /\ drop' = Up(drop, "ended")
-              /\ UNCHANGED <<sp, kind, closed, fault, nalloc, opStarted, opPh, opCh, opV, conn, start, stop, opEndBeforeAwait, stopBeforeOpEnd, done, live, joined, ended, term, child>>
+              /\ UNCHANGED <<sp, kind, closed, fault, nalloc, opLife, opStarted, opPh, opCh, opV, conn, start, stop, opEndBeforeAwait, stopBeforeOpEnd, done, live, joined, ended, term, child>>
 \* the heart of C09
 FutComplete ==
   /\ Is("FutComplete") /\ start[E.f] # "none" /\ done[E.f] = 0
@@ -109,14 +116,14 @@ FutComplete ==
         \* a result already available when the future is awaited is delivered even if stop has been requested
         /\ ~(opEndBeforeAwait[E.f] /\ opCh[E.f] # "done")
   /\ done' = Up(done, 1)
-  /\ UNCHANGED <<sp, kind, closed, fault, nalloc, opStarted, opPh, opCh, opV, conn, start, stop, drop, opEndBeforeAwait, stopBeforeOpEnd, live, joined, ended, term, child>>
+  /\ UNCHANGED <<sp, kind, closed, fault, nalloc, opLife, opStarted, opPh, opCh, opV, conn, start, stop, drop, opEndBeforeAwait, stopBeforeOpEnd, live, joined, ended, term, child>>
 Joined == /\ Is("Joined") /\ joined' = (E.r = 1) /\ UNCHANGED <<per, live, ended, term, child>>
 \* quiescence: every block freed (exactly once, see Free), every tracked value destroyed exactly once, no scope
 \* reference leaked, every awaited future completed, nothing half-done
 End == /\ Is("End") /\ ~ended
        /\ live = {} /\ E.v = 0 /\ E.r = 0 /\ joined
        /\ \A f \in F : /\ start[f] # "none" => done[f] = 1
-                       /\ sp[f] # "begun" /\ opPh[f] # "begun"
+                       /\ sp[f] # "begun" /\ opPh[f] # "begun" /\ opLife[f] # "alive"
                        /\ conn[f] # "begun" /\ start[f] # "begun" /\ stop[f] # "begun" /\ drop[f] # "begun"
                        /\ (sp[f] = "ok" /\ closed[f] = 0 /\ kind[f] = "fut") => opStarted[f]
        /\ ended' = TRUE /\ UNCHANGED <<per, live, joined, term, child>>
@@ -130,7 +137,7 @@ ChildExit == /\ Is("ChildExit") /\ ~child /\ kind[E.f] = "det"
              /\ child' = TRUE /\ UNCHANGED <<per, live, joined, ended, term>>
 Next == \/ Reset \/ SpawnBegin("fut", "SpawnBegin") \/ SpawnEnd("SpawnEnd")
         \/ SpawnBegin("det", "DetachBegin") \/ SpawnEnd("DetachEnd")
-        \/ Alloc \/ Free \/ OpStart \/ OpStopSeen \/ OpCompleteBegin \/ OpCompleteEnd
+        \/ Alloc \/ Free \/ OpCreated \/ OpDestroyed \/ OpStart \/ OpStopSeen \/ OpCompleteBegin \/ OpCompleteEnd
         \/ FutConnectBegin \/ FutConnectEnd \/ FutStartBegin \/ FutStartEnd \/ FutStopBegin \/ FutStopEnd
         \/ FutDropBegin \/ FutDropEnd \/ FutComplete \/ Joined \/ End \/ Terminate \/ ChildExit
 Spec == Init /\ [][Next]_vars
